@@ -854,6 +854,39 @@ fn answer(a: &[&str]) -> String {
                 Err(_) => "PANIC".into(),
             }
         }
+        // meta_op <presence mask> <field> <action> -> "L <OK|ERR> <recorded group length after the operation> <bytes that follow the group length element>"
+        "meta_op" => {
+            use dicom_object::meta::FileMetaTable;
+            use dicom_core::ops::{ApplyOp, AttributeAction, AttributeOp};
+            use dicom_core::{Tag, VR, PrimitiveValue};
+            let mask: u32 = a[1].parse().unwrap();
+            let opt = |bit: u32, s: &str| if mask >> bit & 1 == 1 { Some(s.to_string()) } else { None };
+            let mut t = FileMetaTable {
+                information_group_length: 0xDEAD,
+                information_version: [0, 1],
+                media_storage_sop_class_uid: "1".into(),
+                media_storage_sop_instance_uid: "1.2".into(),
+                transfer_syntax: "1".into(),
+                implementation_class_uid: "1.2".into(),
+                implementation_version_name: opt(0, "ABCDE"),
+                source_application_entity_title: opt(1, "A"),
+                sending_application_entity_title: opt(2, "ABC"),
+                receiving_application_entity_title: opt(3, "A"),
+                private_information_creator_uid: opt(4, "1.2"),
+                private_information: if mask >> 5 & 1 == 1 { Some(vec![7u8; 1]) } else { None },
+            };
+            t.update_information_group_length();
+            let tag = match a[2] { "transfer_syntax" => Tag(2, 0x10), "media_storage_sop_class_uid" => Tag(2, 2), "implementation_version_name" => Tag(2, 0x13),
+                                   "source_application_entity_title" => Tag(2, 0x16), _ => Tag(2, 0x100) };
+            let pv = PrimitiveValue::from("WXYZ");
+            let action = match a[3] { "SetStr" => AttributeAction::SetStr("WXYZ".into()), "SetStrIfMissing" => AttributeAction::SetStrIfMissing("WXYZ".into()), "ReplaceStr" => AttributeAction::ReplaceStr("WXYZ".into()),
+                                      "Set" => AttributeAction::Set(pv), "SetIfMissing" => AttributeAction::SetIfMissing(pv), "Remove" => AttributeAction::Remove, "Empty" => AttributeAction::Empty,
+                                      "SetVr" => AttributeAction::SetVr(VR::LO), _ => AttributeAction::Truncate(1) };
+            let r = t.apply(AttributeOp::new(tag, action));
+            let mut out: Vec<u8> = Vec::new();
+            if t.write(&mut out).is_err() { return "BAD write_error".into(); }
+            format!("L {} {} {}", if r.is_ok() { "OK" } else { "ERR" }, t.information_group_length, out.len() as i64 - 12)
+        }
         // meta_len <presence mask of the 6 optional attributes> <9 field texts in hex> <private information length> -> "L <recorded group length> <bytes that follow the group length element>"
         "meta_len" => {
             use dicom_object::meta::FileMetaTable;
